@@ -25,6 +25,8 @@ const HostLibPath = "progs/hostlib"
 // supplies the same functions as a native package.
 const HostLibSource = `package hostlib
 
+import "sync"
+
 func Send(ch chan int, v int) { ch <- v }
 
 func SendAll(ch chan int, vs ...int) {
@@ -36,6 +38,28 @@ func SendAll(ch chan int, vs ...int) {
 func Add(a, b int) int { return a + b }
 
 func Label(s string, n int) string { return s + string(rune('a'+n%26)) }
+
+func Apply(f func(int) int, v int) int { return f(v) }
+
+// Acc is an accumulator that is safe for concurrent use.
+type Acc struct {
+	mu sync.Mutex
+	n  int
+}
+
+func NewAcc() *Acc { return &Acc{} }
+
+func (a *Acc) Add(v int) {
+	a.mu.Lock()
+	a.n += v
+	a.mu.Unlock()
+}
+
+func (a *Acc) Get() int {
+	a.mu.Lock()
+	defer a.mu.Unlock()
+	return a.n
+}
 `
 
 type gen struct {
@@ -53,7 +77,7 @@ func (g *gen) id(p string) string { g.n++; return fmt.Sprintf("%s%d", p, g.n) }
 func Generate(r *rand.Rand) Program {
 	g := &gen{r: r}
 	np := 2 + r.Intn(4)
-	pats := []func(){g.pipeline, g.fanInOut, g.pingPong, g.semaphore, g.selectMerge, g.slots, g.closeBroadcast, g.mutexMap, g.generatorClosure, g.nestedSpawn, g.nativeGo, g.closeSentinel, g.nativeGo, g.selectSend}
+	pats := []func(){g.pipeline, g.fanInOut, g.pingPong, g.semaphore, g.selectMerge, g.slots, g.closeBroadcast, g.mutexMap, g.generatorClosure, g.nestedSpawn, g.nativeGo, g.closeSentinel, g.nativeGo, g.selectSend, g.sharedFuncValues, g.deepGo, g.selectBreak}
 	for i := 0; i < np; i++ {
 		pats[r.Intn(len(pats))]()
 	}
@@ -291,4 +315,61 @@ func (g *gen) selectSend() {
 	}
 	fmt.Fprintf(&b, "\ttotal, bad := 0, 0\n\tfor i := 0; i < %d; i++ {\n\t\tr := <-res\n\t\ttotal += r[0]\n\t\tbad += r[1]\n\t}\n\tprintln(%q, total, bad)\n}", nc, name)
 	g.add("select-send", name, b.String())
+}
+
+// sharedFuncValues: a native method value and a closure are shared by several
+// goroutines that call them, send them on a channel and pass them to native
+// code at the same time.
+func (g *gen) sharedFuncValues() {
+	g.usesHost = true
+	name := g.id("shfn")
+	k := 2 + g.r.Intn(6)
+	var b strings.Builder
+	fmt.Fprintf(&b, "func %s() {\n\tacc := hostlib.NewAcc()\n\tadd := acc.Add\n\tbase := %d\n\tdbl := func(x int) int { return 2*x + base }\n", name, g.r.Intn(5))
+	fmt.Fprintf(&b, "\tstart := make(chan bool)\n\tfs := make(chan func(int) int%s)\n\tres := make(chan int)\n", g.buf())
+	fmt.Fprintf(&b, "\tfor i := 0; i < %d; i++ {\n\t\tgo func(f func(int), h func(int) int, i int) {\n\t\t\t<-start\n\t\t\tf(i + 1)\n\t\t\tfs <- h\n\t\t\tres <- hostlib.Apply(h, i)\n\t\t}(add, dbl, i)\n\t}\n\tclose(start)\n", k)
+	fmt.Fprintf(&b, "\ts, t := 0, 0\n\tfor i := 0; i < %d; i++ {\n\t\th := <-fs\n\t\ts += h(i)\n\t\tt += <-res\n\t}\n", k)
+	fmt.Fprintf(&b, "\tprintln(%q, acc.Get(), s, t, hostlib.Apply(dbl, 4))\n}", name)
+	g.add("shared-func-values", name, b.String())
+}
+
+// deepGo: a go statement executed at every depth of a recursion, so that the
+// frame of the statement lies at every offset around the sizes at which the
+// register stacks of the VM grow.
+func (g *gen) deepGo() {
+	name := g.id("deepgo")
+	extra := g.r.Intn(4)
+	var b strings.Builder
+	fmt.Fprintf(&b, "func %sRec(n int, ch chan int) int {\n\tif n == 0 {\n", name)
+	switch g.r.Intn(3) {
+	case 0:
+		g.usesHost = true
+		b.WriteString("\t\tgo hostlib.Send(ch, 7)\n")
+	case 1:
+		b.WriteString("\t\tgo func(v int) {\n\t\t\tch <- v\n\t\t}(7)\n")
+	default:
+		b.WriteString("\t\tf := func(c chan int, v int) {\n\t\t\tc <- v\n\t\t}\n\t\tgo f(ch, 7)\n")
+	}
+	b.WriteString("\t\treturn 0\n\t}\n\ta := n * 2\n")
+	sum := "a"
+	for i := 0; i < extra; i++ {
+		fmt.Fprintf(&b, "\tb%d := a + %d\n", i, i+1)
+		sum += fmt.Sprintf(" + b%d", i)
+	}
+	fmt.Fprintf(&b, "\treturn %sRec(n-1, ch) + %s\n}\n\n", name, sum)
+	hi := 600/(3+extra) + 30
+	fmt.Fprintf(&b, "func %s() {\n\tt, u := 0, 0\n\tfor d := 1; d < %d; d++ {\n\t\tch := make(chan int)\n\t\tu += %sRec(d, ch)\n\t\tt += <-ch\n\t}\n\tprintln(%q, t, u)\n}", name, hi, name, name)
+	g.add("deep-go", name, b.String())
+}
+
+// selectBreak: break statements in the cases of a select statement inside a
+// loop leave the select statement only.
+func (g *gen) selectBreak() {
+	name := g.id("selbrk")
+	k := 3 + g.r.Intn(8)
+	var b strings.Builder
+	fmt.Fprintf(&b, "func %s() {\n\tch := make(chan int, %d)\n\tfor i := 0; i < %d; i++ {\n\t\tch <- i\n\t}\n", name, k, k)
+	fmt.Fprintf(&b, "\tsum, after := 0, 0\n\tfor i := 0; i < %d; i++ {\n\t\tselect {\n\t\tcase v := <-ch:\n\t\t\tif v%%3 == 1 {\n\t\t\t\tbreak\n\t\t\t}\n\t\t\tsum += v\n\t\tdefault:\n\t\t\tif i >= 0 {\n\t\t\t\tbreak\n\t\t\t}\n\t\t\tsum = -1\n\t\t}\n\t\tafter++\n\t}\n", k+2)
+	fmt.Fprintf(&b, "\tprintln(%q, sum, after)\n}", name)
+	g.add("select-break", name, b.String())
 }
